@@ -108,6 +108,28 @@ PROPS = {
         "assumptions": ["the wiring of -report-client-info to setupClientReporting in run.go is not exercised (package main run())",
                         "names are injected at lookup level, not through multicast"],
     },
+    "C15": {
+        "proof_files": ["Proofs/LockFacts.v", "Properties/C15_instance.v"],
+        "race_build": True,
+        "trusted_extra": ["translator harness/locks_extract.go (Go AST -> Gen/AccessTable.v) and its configuration of shared types / guarded fields",
+                          "Go race detector (ThreadSanitizer runtime) for the stress half"],
+        "generated": {"cmd": ["locks-extract"], "out": "Gen/AccessTable.v",
+                      "compile": ["Gen/AccessTable.v", "Properties/C15_instance.v"], "diag": "Gen/C15Diag.v"},
+        "runs": [{"engine": "racestress", "args": [], "n_quick": 8, "n_thorough": 240, "netns": True}],
+        "trivial_tags": [],
+        "rule": "translator: every method of the shared types (hosts / lease / router client tables, mDNS tables, DoH last-modified map, "
+                "endpoint manager and active endpoint) in /repo's current source is turned into its control-flow paths of lock operations "
+                "and guarded-field accesses (field cell, container, element arrays; returned aliases read after the unlock); Coq evaluates "
+                "table_ok on that table (C15_table_ok) and table_ok_sound lifts it to every schedule of any number of threads. "
+                "stress: -race build of the harness runs lookups against refreshes, mDNS packets against lookups that iterate results, queries "
+                "against elections, and UDP/TCP queries through the proxy for n seconds; any race report whose stacks touch /repo is a violation. "
+                "evaluations = stress runs; the table size is in the log",
+        "assumptions": ["the translator (harness/locks_extract.go) and its configuration of shared types, guarded fields and the one "
+                        "fresh-object exemption are trusted; aliasing through local variables and callbacks is not tracked",
+                        "shared state outside the configured types (cache implementation supplied by the embedder, Go runtime, net/http) is "
+                        "covered by the race-detector stress only",
+                        "Go memory model: a data race is two conflicting non-atomic accesses not ordered by a common mutex"],
+    },
     "C16": {
         "proof_files": ["Proofs/ListenFacts.v", "Mutants/ListenRace.v"],
         "runs": [{"engine": "listen", "args": [], "n_quick": 120, "n_thorough": 5000, "netns": True}],
